@@ -25,13 +25,13 @@ from nunavut._templates import (
     template_language_filter,
     template_language_list_filter,
     template_language_test,
+    template_volatile_filter,
 )
 from nunavut._utilities import YesNoDefault, cached_property
 from nunavut.jinja.environment import Environment
 from nunavut.lang._common import IncludeGenerator, TokenEncoder, UniqueNameGenerator
 from nunavut.lang._language import Language as BaseLanguage
-from nunavut.lang.c import _CFit
-from nunavut.lang.c import filter_literal as c_filter_literal
+from nunavut.lang.c import _CFit, filter_literal as c_filter_literal
 
 # +-------------------------------------------------------------------------------------------------------------------+
 # | ENUMERATIONS
@@ -1366,11 +1366,11 @@ def filter_to_namespace_qualifier(namespace_list: typing.List[str]) -> str:
     return "::".join(namespace_list) + "::"
 
 
-def filter_to_template_unique_name(base_token: str) -> str:
+@template_volatile_filter
+def filter_to_template_unique_name(_: typing.Any, base_token: str) -> str:
     """
-    Filter that takes a base token and forms a name that is very
-    likely to be unique within the template the filter is invoked. This
-    name is also very likely to be a valid C++ identifier.
+    Filter that takes a base token and forms a name that is very likely to be unique within the template
+    the filter is invoked. This name is also very likely to be a valid C++ identifier.
 
     .. IMPORTANT::
 
